@@ -11,7 +11,9 @@ Family (see BOUND below):
      from explicit numbers, from a hwcomponents model (component_class, value omitted) or from both, with
      non-unit scale factors / n_parallel_instances, 0 / 2 / 3 Einsums; every call picks its target (last
      returned spec, the original spec, any earlier returned spec), a copy mode (none, copy.copy,
-     copy.deepcopy, model_copy, model_copy(deep=True)), a flag subset and an Einsum name.
+     copy.deepcopy, model_copy, model_copy(deep=True)), a flag subset and an Einsum name; the fan-out of a
+     Container above the components is changed before some calls (totals may follow, per-instance values
+     may not).
 """
 import copy, itertools, math, os, random, tempfile
 
